@@ -285,10 +285,10 @@ PROPS["C13"] = dict(
                 "Each input is run in a persistent worker process through Parse + Signatures + Hash + Bytes + Open + Verify (images) resp. ParsePKCS7/ParseAuthenticode/descriptor Verify (blobs). "
                 "Oracle: the worker answers with a value or an error; a recovered panic, a dead worker (log.Fatal / os.Exit / fatal error, call site from the log line), a reproduced timeout (4 s, re-run alone with 24 s) "
                 "or more than 16 MiB + 256 x input bytes allocated is a violation unless its site matches a listed known finding. Thorough adds coverage-guided native fuzzing of the same entry points."),
-    level_note=("Trusts the sandbox classifier (self-checked per run with a deliberate panic, log.Fatal, 64 MiB allocation, hang, value and error). 'Time proportional to the input' is decided as 'no reproducible timeout at several thousand times the typical latency', "
+    level_note=("Trusts the sandbox classifier (self-checked per run with a deliberate panic, log.Fatal, 64 MiB allocation, hang, value and error). 'Time proportional to the input' is decided as 'no reproducible timeout at several thousand times the typical latency' on inputs up to 3 MB with up to 150 000 elements per collection, "
                 "not as a complexity bound. Known finding by allocation site: debug/pe.readRelocs (stdlib)."),
     rule=("case = (entry point, input bytes). Non-trivial = input on which the entry point got past its first validation step (the worker reports the deepest stage reached: Parse / ParsePKCS7 succeeded); distinct by SHA-256 of (entry, input)."),
-    assumptions=["allocation is measured with runtime/metrics /gc/heap/allocs:bytes around the request in the worker"],
+    assumptions=["allocation is measured with runtime/metrics (/gc/heap/allocs:bytes and the /gc/heap/allocs-by-size histogram) around the request in the worker; bytes in large objects are a lower bound"],
     quick=dict(checks=6000, shards=4, timeout=1200, shrinktime=20),
     thorough=dict(checks=60000, shards=16, timeout=3400, shrinktime=60),
     fuzz=[("FuzzC13Image", 150), ("FuzzC13PKCS7", 150)],
@@ -297,17 +297,18 @@ PROPS["C13"] = dict(
 PROPS["C14"] = dict(
     pkg="c14",
     level="exploration",
-    technique="property-based testing (rapid) and native fuzzing through sandboxed worker processes, one entry point per decoder; static list of termination call sites used as coverage target only",
+    technique="property-based testing (rapid) and native fuzzing through sandboxed worker processes (built with the race detector; one input in three decoded by three goroutines at once), one entry point per decoder; static list of termination call sites used as coverage target only",
     level_text=("One sandboxed entry point per decoder the statement names: signature database / list / data, authentication descriptor (reader and Unmarshal), WIN_CERTIFICATE (+UEFI_GUID), load option and device path incl. Format() of every node, "
                 "UTF-16 strings (ParseUtf16Var, Efistring, ReadNullString), boot order and boot entry through the in-memory store, supported-signature list, attribute-prefixed variable file (FSWrapper and legacy), typed getters "
                 "(Getdb/Getdbx/GetPK/GetKEK/GetSecureBoot/GetSetupMode/GetLoaderEntrySelected), PEM key and certificate, GUID text and bytes, and TestFS.WriteVar of small unsigned secure-boot values. Inputs are valid encodings from the reference encoders "
                 "mutated by truncation at any point, 32-/16-bit fields overwritten with hostile constants, byte noise, trailing garbage, emptiness, and random bytes up to 64 KiB, plus fixed inputs for every shape that was a defect on the pinned tree. "
-                "Oracle as C13 (value or error; no panic, process exit, reproduced timeout, or allocation above 16 MiB + 256 x input). Thorough adds native fuzzing of all entry points with one input."),
+                "Oracle as C13 (value or error; no panic, process exit, reproduced timeout, or more than 16 MiB + 64 x input bytes in objects larger than 32 KiB, or more than 16 MiB + 8192 x input bytes allocated in total). Thorough adds native fuzzing of all entry points with one input."),
     level_note=("Trusts the sandbox classifier (self-checked per run). The static list of log.Fatal*/os.Exit/panic call sites (go/parser, non-cmd non-test packages; recorded in evidence under extra.static_termination_call_sites) is a coverage target: "
                 "fuzzing shows reachability, it cannot show that the remaining sites (writers to a caller-supplied buffer, asntest helpers) are unreachable."),
     rule=("case = (entry point, input). Non-trivial = input of >= 4 bytes that is not the unmodified valid encoding; distinct by SHA-256 of (entry, input)."),
     assumptions=["allocation measured with runtime/metrics in the worker"],
-    quick=dict(checks=15000, shards=4, timeout=1200, shrinktime=20),
+    race=True,
+    quick=dict(checks=7000, shards=4, timeout=1200, shrinktime=20),
     thorough=dict(checks=150000, shards=16, timeout=3400, shrinktime=60),
     fuzz=[("FuzzC14", 180)],
 )
